@@ -450,6 +450,7 @@ class NameConverter(ast.NodeTransformer):
         self.count = count()
         self.depth = 0
         self.shadowed = []
+        self.no_walrus = 0
 
     def _is_shadowed(self, name):
         return any(name in names for names in self.shadowed)
@@ -477,6 +478,18 @@ class NameConverter(ast.NodeTransformer):
 
     def visit_Lambda(self, node):
         return self._visit_scope(node, _bound_names(node))
+
+    def visit_comprehension(self, node):
+        # Python does not allow assignment expressions in the iterable of a
+        # comprehension: call sites there are rewritten without them
+        node.target = self.visit(node.target)
+        self.no_walrus += 1
+        try:
+            node.iter = self.visit(node.iter)
+        finally:
+            self.no_walrus -= 1
+        node.ifs = [self.visit(cond) for cond in node.ifs]
+        return node
 
     def visit_Name(self, node):
         if self._is_shadowed(node.id):
@@ -574,6 +587,13 @@ class NameConverter(ast.NodeTransformer):
                 ast.Call(func=node.func, args=args, keywords=keywords), node
             )
 
+        lam = self.no_walrus > 0
+        if lam and written is None:
+            written = [
+                *[(i, arg) for i, arg in enumerate(node.args)],
+                *[(kw.arg, kw.value) for kw in node.keywords],
+            ]
+
         def _make_lookup_call(key, arg):
             # (not the bare name `type`, which the method may shadow). How an
             # argument is keyed - type(x), or type[x] for a class where some
@@ -616,7 +636,7 @@ class NameConverter(ast.NodeTransformer):
         if cn:
             type_parts.insert(0, ast.Name(id=self.code_mangled, ctx=ast.Load()))
         index = ast.Tuple(elts=type_parts, ctx=ast.Load())
-        if written is not None:
+        if written is not None and not lam:
             # ((tmp_a := a, tmp_b := b, ...), key)[1]
             evaluated = ast.Tuple(
                 elts=[
@@ -658,6 +678,29 @@ class NameConverter(ast.NodeTransformer):
                 for kw in node.keywords
             ],
         )
+        if lam:
+            # (lambda tmp_a, tmp_b: MAP[key](tmp_a, tmp_b))(tmp_a=a, tmp_b=b):
+            # the arguments are still evaluated once, in the order written
+            names = [f"{tmp}{key}" for key, _ in written]
+            new_node = ast.Call(
+                func=ast.Lambda(
+                    args=ast.arguments(
+                        posonlyargs=[],
+                        args=[ast.arg(arg=name) for name in names],
+                        vararg=None,
+                        kwonlyargs=[],
+                        kw_defaults=[],
+                        kwarg=None,
+                        defaults=[],
+                    ),
+                    body=new_node,
+                ),
+                args=[],
+                keywords=[
+                    ast.keyword(arg=name, value=self.visit(arg))
+                    for name, (_, arg) in zip(names, written)
+                ],
+            )
         return ast.copy_location(old_node=node, new_node=new_node)
 
 
